@@ -620,20 +620,89 @@ func runCase(c string) (out string) {
 
 // ---------------------------------------------------------------- generator
 
-func genLeaf(r *vh.Rand, allowUnl bool, liveOK bool) *node {
-	k := r.Intn(10)
-	switch {
-	case k < 4:
-		return &node{kind: "once", p: []int64{int64(r.PickInt([]int{0, 0, 1, 1, 2, 3, 5}))}}
-	case k < 7:
+// Rate leaves (const / line).  Half of them come from the short pick lists the earlier rounds used; the
+// other half are drawn from the whole domain the configuration accepts, over orders of magnitude: a
+// duration between 1 ms and a good hour, a rate chosen so that the part holds 0-30 tokens, and for a line
+// one of the shapes: rising from (almost) nothing, falling to (almost) nothing, a moderate slope either
+// way, and ALMOST FLAT - from and to differ by 1-3 thousandths of an operation per second - which is the
+// neighbourhood of the from == to special case of NewLine.  Whatever the parameters, the part's tokens
+// must lie inside the part's window and never go back (the driver judges the drained table).
+// At most longBudget parts of one tree take longer than 100 s (explicitly started cases put the start
+// 1e15 ns into the past and need every part closed by now).
+var longBudget int
+
+func genWideDur(r *vh.Rand) int64 {
+	ds := []int64{1000000, 10000000, 100000000, 1000000000, 10000000000, 100000000000,
+		1000000000000, 3000000000000, 3600000000000, 4000000000000}
+	n := len(ds)
+	if longBudget <= 0 {
+		n = 6
+	}
+	d := ds[r.Intn(n)]
+	if d > 100000000000 {
+		longBudget--
+	}
+	if r.Chance(1, 3) {
+		d += int64(r.Intn(int(d/10) + 1)) // not only round values
+	}
+	return d
+}
+
+// milli-operations per second that give about tok tokens during d ns
+func rateFor(tok int, d int64) int64 {
+	return int64(float64(tok) * 1e9 / float64(d) * 1000)
+}
+
+func genConstLeaf(r *vh.Rand) *node {
+	if r.Bool() {
 		ops := int64(r.PickInt([]int{0, 500, 1000, 2000, 3500, 10000}))
 		dur := int64(r.PickInt([]int{1000000, 500000000, 1000000000, 2500000000, 3000000000}))
 		return &node{kind: "const", p: []int64{ops, dur}}
-	case k < 8:
+	}
+	d := genWideDur(r)
+	return &node{kind: "const", p: []int64{rateFor(r.Intn(31), d), d}}
+}
+
+func genLineLeaf(r *vh.Rand) *node {
+	if r.Bool() {
 		from := int64(r.PickInt([]int{0, 1000, 2000, 5000}))
 		to := int64(r.PickInt([]int{0, 1000, 4000, 8000}))
 		dur := int64(r.PickInt([]int{1000000000, 2000000000, 3000000000}))
 		return &node{kind: "line", p: []int64{from, to, dur}}
+	}
+	d := genWideDur(r)
+	base := rateFor(r.Range(1, 30), d) // mean rate
+	var from, to int64
+	switch r.Intn(6) {
+	case 0: // rising from nothing
+		from, to = int64(r.Intn(2)), 2*base
+	case 1: // falling to nothing
+		from, to = 2*base, int64(r.Intn(2))
+	case 2, 3: // moderate slope
+		k := int64(r.Range(2, 10))
+		from, to = base-base/k, base+base/k
+		if r.Bool() {
+			from, to = to, from
+		}
+	default: // almost flat: the neighbourhood of from == to
+		diff := int64(r.Range(1, 3))
+		from, to = base, base+diff
+		if r.Chance(1, 3) {
+			from, to = to, from
+		}
+	}
+	return &node{kind: "line", p: []int64{from, to, d}}
+}
+
+func genLeaf(r *vh.Rand, allowUnl bool, liveOK bool) *node {
+	k := r.Intn(10)
+	switch {
+	case k < 3:
+		return &node{kind: "once", p: []int64{int64(r.PickInt([]int{0, 0, 1, 1, 2, 3, 5}))}}
+	case k < 6:
+		return genConstLeaf(r)
+	case k < 8:
+		return genLineLeaf(r)
 	default:
 		if !allowUnl {
 			return &node{kind: "once", p: []int64{int64(r.Intn(4))}}
@@ -646,6 +715,11 @@ func genLeaf(r *vh.Rand, allowUnl bool, liveOK bool) *node {
 }
 
 func genTree(r *vh.Rand, depth int, allowUnl, liveOK bool) *node {
+	longBudget = 30
+	return genTreeRec(r, depth, allowUnl, liveOK)
+}
+
+func genTreeRec(r *vh.Rand, depth int, allowUnl, liveOK bool) *node {
 	k := r.Intn(12)
 	if depth <= 0 || k < 3 {
 		return genLeaf(r, allowUnl, liveOK)
@@ -659,7 +733,7 @@ func genTree(r *vh.Rand, depth int, allowUnl, liveOK bool) *node {
 	c := &node{kind: "comp"}
 	n := r.PickInt([]int{0, 1, 2, 2, 2, 3, 3, 4, 5})
 	for i := 0; i < n; i++ {
-		c.kids = append(c.kids, genTree(r, depth-1, allowUnl, liveOK))
+		c.kids = append(c.kids, genTreeRec(r, depth-1, allowUnl, liveOK))
 	}
 	return c
 }
@@ -802,6 +876,7 @@ func gen(r *vh.Rand, tier string) []string {
 	// conformance replay of the atomic-section model applies to every one of these
 	for i := 0; i < nflat; i++ {
 		t := &node{kind: "comp"}
+		longBudget = 30
 		n := r.Range(2, 6)
 		for j := 0; j < n; j++ {
 			switch r.Intn(8) {
